@@ -166,7 +166,7 @@ SPECS = {
         model_note="Race/Discipline.v: protection class of every struct field + exact list of sync-object call sites; the access table is regenerated from /repo by tools/accesstab (go/types) on every run and decided in Coq by vm_compute",
         trusted=["tools/accesstab (go/packages + go/types): classification of an access as atomic / init / write / read / sync-method",
                  "Race/HBModel.v as a rendering of the Go memory model's happens-before (program order, Unlock->Lock/RLock, RUnlock->Lock, atomic write -> the atomic read that observes it, go -> goroutine, send -> receive; sequentially consistent order of synchronisation events); fewer edges than Go guarantees only strengthen the theorem",
-                 "the assumption static_to_dynamic_esc (Race/HBStaticEscape.v), stated precisely and shown satisfiable: every dynamic access stems from a row of the extracted table, functions listed for a guarded field hold its mutex around the access, owned objects are confined, constructors finish before the reference escapes",
+                 "the assumption static_to_dynamic_esc (Race/HBStaticEscape.v), stated precisely and shown satisfiable: every dynamic access stems from a row of the extracted table, functions listed for a guarded field hold its mutex around the access, owned objects are confined, constructors finish before the reference escapes; for the 17 fields classified as goroutine-owned (builders, queue iterators, Task.ctx) confinement itself is part of the assumption - the table does not constrain them",
                  "the Go race detector and the stress workloads are a search aid only"],
         partial=["PARTIAL: machine-checked are (1) every access in the current sources obeys the declared discipline, (2) 'discipline => no data race' for every well-formed execution of the abstract happens-before model, (3) their composition under static_to_dynamic_esc; that the Go sources' executions ARE such executions (the extractor's classification is right, lock-held regions, confinement of owned objects) is an assumption, not a theorem",
                  "lock-held regions are approximated by the enclosing function (Guarded class lists functions)",
